@@ -524,6 +524,83 @@ fn c12_cycle() -> bool {
     hang1 || hang2
 }
 
+// F-C12-e  (C12)  an incremental backup ships the CURRENT MANIFEST but never the snapshot it points to
+//   history: full backup -> writes 20..22 into the archived segment -> restart (new active segment) -> write 30 -> create_snapshot
+//   (snapshot_B; the old segment is compacted away) -> write 40 -> incremental I1(parent = full) -> write 50 -> incremental I2(parent = I1)
+//   -> write 60 -> incremental I3(parent = I2); restore I1, I2, I3 into empty directories and start from them.
+//   pinned tree: restored MANIFEST names snapshot_B, which is in no archive of the chain:
+//     recovery of the restored directory REFUSED: strict recovery mode: snapshot covers WAL seq 0 but MANIFEST committed snapshot seq 7
+//     and 6 WAL entries in between are no longer available; refusing to recover from the older snapshot
+//   unit backup_incremental (finding: lemma_incremental_never_ships_snapshot; after the fix: inc_content snapshot clauses + lemma_chain_has_snapshot)
+fn c12e_ids(b: &HnswBackend) -> Vec<u64> {
+    let mut x: Vec<u64> = (0..80u64).filter(|i| b.fetch_document(*i).is_some()).collect();
+    x.sort();
+    x
+}
+fn c12e_recover(dir: &std::path::Path) -> anyhow::Result<HnswBackend> {
+    HnswBackend::recover(4, DistanceMetric::Euclidean, dir, 1000, FsyncPolicy::Always, 1_000_000, 100 * 1024 * 1024, MetricsCollector::new())
+}
+fn c12e_restore_differs(bdir: &std::path::Path, m: &BackupMetadata, expected: &[u64], label: &str) -> bool {
+    let rdir = tempfile::tempdir().unwrap();
+    let r = RestoreManager::new(bdir, rdir.path()).unwrap();
+    if let Err(e) = r.restore_from_backup(m.id) {
+        println!("  restore({label}) failed: {e:#}");
+        return true;
+    }
+    let rm = Manifest::load(rdir.path().join("MANIFEST")).unwrap();
+    let snap_there = rm.latest_snapshot.as_ref().map(|s| rdir.path().join(s).exists()).unwrap_or(true);
+    println!("  restore({label}): record snapshot_file={:?}; restored MANIFEST latest_snapshot={:?} present={} dir={:?}",
+        m.snapshot_file, rm.latest_snapshot, snap_there, c12_ls(rdir.path()).iter().map(|e| e.0.clone()).collect::<Vec<_>>());
+    match c12e_recover(rdir.path()) {
+        Ok(rb) => {
+            let got = c12e_ids(&rb);
+            println!("    recovered {:?} (expected {:?})", got, expected);
+            got != expected
+        }
+        Err(e) => {
+            println!("    recovery of the restored directory REFUSED: {e:#}");
+            true
+        }
+    }
+}
+fn c12_incremental_after_compaction() -> bool {
+    let v = |id: u64| vec![id as f32 + 1.0, 0.5, (id % 7) as f32, 2.0];
+    let data = tempfile::tempdir().unwrap();
+    let bdir = tempfile::tempdir().unwrap();
+    let b = HnswBackend::with_persistence(4, DistanceMetric::Euclidean, (0..3u64).map(v).collect(), (0..3u64).map(|_| HashMap::new()).collect(),
+        1000, data.path(), FsyncPolicy::Always, 1_000_000, 100 * 1024 * 1024).unwrap();
+    for id in 10..13u64 { b.insert(id, v(id), HashMap::new()).unwrap(); }
+    b.sync_wal().unwrap();
+    let mgr = BackupManager::new(bdir.path(), data.path()).unwrap();
+    let full = mgr.create_full_backup("full".into()).unwrap();
+    println!("  FULL snapshot_file={:?} max_wal_file_id={:?}", full.snapshot_file, full.max_wal_file_id);
+    for id in 20..23u64 { b.insert(id, v(id), HashMap::new()).unwrap(); }
+    b.sync_wal().unwrap();
+    drop(b);
+    std::thread::sleep(std::time::Duration::from_millis(1100));
+    let b = c12e_recover(data.path()).unwrap();
+    b.insert(30, v(30), HashMap::new()).unwrap();
+    b.sync_wal().unwrap();
+    b.create_snapshot().unwrap();
+    let m = Manifest::load(data.path().join("MANIFEST")).unwrap();
+    println!("  after create_snapshot: latest_snapshot={:?} wal_segments={:?}", m.latest_snapshot, m.wal_segments);
+    let mut defect = false;
+    let mut parent = full;
+    for (k, id) in [40u64, 50, 60].iter().enumerate() {
+        b.insert(*id, v(*id), HashMap::new()).unwrap();
+        b.sync_wal().unwrap();
+        std::thread::sleep(std::time::Duration::from_millis(1100));
+        let inc = match mgr.create_incremental_backup(parent.id, format!("inc{}", k + 1)) {
+            Ok(i) => i,
+            Err(e) => { println!("  create_incremental_backup #{} failed: {e:#}", k + 1); return true; }
+        };
+        let expected = c12e_ids(&b);
+        defect |= c12e_restore_differs(bdir.path(), &inc, &expected, &format!("I{}", k + 1));
+        parent = inc;
+    }
+    defect
+}
+
 // ---- F-C10-a (C10): a tenant's search hit count depends on ANOTHER tenant's documents (real kyrodb_server over gRPC, auth enabled)
 //   the k-NN search is global (search_k = k * oversampling(filter, namespace); the tenant is not part of it) and the tenant check is a
 //   post-filter in build_search_response: tenant A owns a matching document, tenant B inserts nearer ones, A's Search(k=1) comes back empty.
@@ -678,6 +755,7 @@ fn main() {
         ("F-C12-c.type", Box::new(c12_meta_type_altered)),
         ("F-C12-c.id", Box::new(c12_meta_id_mismatch)),
         ("F-C12-d.cycle", Box::new(c12_cycle)),
+        ("F-C12-e", Box::new(c12_incremental_after_compaction)),
         ("F-C11-a", Box::new(filtered_delete_stale_hot)),
         ("F-C13-a", Box::new(strict_fallback_loss)),
         ("F-C13-b", Box::new(truncated_older_segment)),
